@@ -28,7 +28,7 @@ RULE = ("random arrival workloads (bursts into an idle port, arrivals exactly at
         "average visited the probabilistic region; distinct by case hash")
 ASSUMPTIONS = ["a packet that arrives at an idle port starts transmission at an unobservable later kernel step of the same "
                "instant: both waiting counts are admissible for arrivals in that window",
-               "perhop stamps are checked for accepted packets, for Port (REDPort's statement only covers the drop law)",
+               "perhop stamps are checked for every packet handed to a Port, refused ones included (REDPort's statement only covers the drop law)",
                "RED probabilistic regions are decided by an Azuma-Hoeffding bound with false-alarm budget 1e-12; at/above "
                "max_threshold the curve is read as 'at least max_probability'"]
 FLOORS = {"quick": {"departures_checked": 20000, "drop_decisions_checked": 20000, "drops": 3000, "exact_fill_accepts": 200,
@@ -42,7 +42,7 @@ FLOORS = {"quick": {"departures_checked": 20000, "drop_decisions_checked": 20000
                        "monitor_samples_coincident": 6000, "red_arrivals": 2000000, "red_prob_region_arrivals": 400000,
                        "red_below_min": 100000, "red_above_limit": 40000, "lohi_ambiguous": 2000,
                        "arrival_at_departure_instant": 20000}}
-KEYS = tuple(FLOORS["quick"].keys()) + ("monitor_cases", "red_cases", "port_cases", "red_certain_drops_checked", "long_history_cases", "big_clock_cases", "zero_size_packets", "reentry_cases", "reentries", "puts_before_the_run", "rate_reassignments")
+KEYS = tuple(FLOORS["quick"].keys()) + ("monitor_cases", "red_cases", "port_cases", "red_certain_drops_checked", "long_history_cases", "big_clock_cases", "zero_size_packets", "reentry_cases", "reentries", "puts_before_the_run", "rate_reassignments", "terminal_port_cases")
 # floors for the situations added with the later rounds of seeded changes (evidence that they were really exercised)
 FLOORS["quick"].update({'reentries': 150})
 FLOORS["thorough"].update({'reentries': 750})
@@ -63,6 +63,8 @@ def gen_case(rng, i):
         return gen_red(rng)
     if i % 25 == 13:
         return gen_reentry(rng)
+    if i % 25 == 19:
+        return gen_terminal(rng)
     flavour = "exact" if rng.random() < 0.7 else "float"
     sizes = rng.choice([[100], [100, 200], [64, 128, 256], [100, 250, 1000], [0, 100], [0, 64, 128]])
     rate = rng.choice([0, 800, 800, 1600, 6400, 1000]) if flavour == "exact" else rng.choice([0, 1000, 3000, 777])
@@ -242,6 +244,75 @@ def run_reentry(case, stats):
     return viol
 
 
+def gen_terminal(rng):
+    """a port without a next hop (out = None: a terminal or not yet attached port): packets are transmitted and vanish;
+    occupancy, counters and the drop rule are the same"""
+    sizes = rng.choice([[100], [100, 200], [64, 128, 256]])
+    return {"kind": "terminal", "rate": rng.choice([800, 1600, 6400, 0]), "qlimit": rng.choice([None, 2 * max(sizes), 3 * max(sizes) + min(sizes), 1000]),
+            "element_id": rng.choice(["p1", 0]), "arrivals": vnet.gen_arrivals(rng, 2, "exact", rng.randint(4, 30), sizes, None, burst_p=0.45)}
+
+
+def run_terminal(case, stats):
+    from onl.netdev import Port
+    viol = []
+    net = vnet.Net(0)
+    env = net.env
+    rate, qlimit = case["rate"], case["qlimit"]
+    port = Port(env, rate, qlimit, True, case["element_id"])
+    port.out = None
+    orig = port.put
+    acc = []            # (reference departure instant, size) of the accepted packets
+    st = {"dep_prev": None}
+    stats["terminal_port_cases"] += 1
+
+    def bad(m, what, wit=None):
+        if len(viol) < 4:
+            viol.append((m, what, wit))
+
+    def held(now, strict):
+        # bytes of accepted packets that have not yet departed by the reference (at the departure instant itself: both)
+        return sum(s for d, s in acc if (d > now if strict else d >= now))
+
+    def put(p):
+        a = env.now
+        lo, hi = held(a, True), held(a, False)
+        d0 = port.packets_dropped
+        orig(p)
+        dropped = port.packets_dropped - d0
+        stats["drop_decisions_checked"] += 1
+        if qlimit is not None:
+            if dropped and hi + p.size <= qlimit:
+                bad("drop-decision-wrong[bytes]", "a packet was refused although bytes held + size <= qlimit", {"held": hi, "size": p.size, "qlimit": qlimit, "next_hop": None})
+            if not dropped and lo + p.size > qlimit:
+                bad("drop-decision-wrong[bytes]", "a packet was accepted although bytes held + size > qlimit", {"held": lo, "size": p.size, "qlimit": qlimit, "next_hop": None})
+        elif dropped:
+            bad("drop-decision-wrong[bytes]", "a port without limit refused a packet", None)
+        if dropped:
+            stats["drops"] += 1
+            return
+        start = a if st["dep_prev"] is None or st["dep_prev"] <= a else st["dep_prev"]
+        dep = start + (p.size * 8 / rate) if rate > 0 else start
+        st["dep_prev"] = dep
+        acc.append((dep, p.size))
+
+    def quiescent(e):
+        # the clock is about to advance: every transmission due at or before now has ended
+        stats["byte_size_checks"] += 1
+        if port.byte_size != held(env.now, True):
+            bad("byte-size-not-bytes-held", "the advertised byte occupancy differs from the bytes of packets accepted and not yet departed",
+                {"byte_size": port.byte_size, "held": held(env.now, True), "where": "clock advance", "next_hop": None})
+    port.put = put
+    env.advance_hooks.append(quiescent)
+    net.drivers(port, case["arrivals"])
+    err = net.run()
+    if err:
+        bad(err, "the run raised", net.errors[-1] if net.errors else err)
+        return viol
+    if port.byte_size != 0:
+        bad("byte-size-not-bytes-held", "at the end of the run the port still advertises bytes", {"byte_size": port.byte_size, "next_hop": None})
+    return viol
+
+
 def gen_red(rng):
     wf = rng.choice([1, 2, 3, 4])
     limit_bytes = rng.random() < 0.4
@@ -366,13 +437,13 @@ def run_port(case, stats):
             bad("departure-time-wrong", "the k-th accepted packet did not leave at max(arrival, previous departure) + 8*size/rate",
                 {"k": k, "arrival": ref[u][0], "start": ref[u][1], "expected": ref[u][2], "got": o[2], "rate": rate})
             break
-    # stamps
-    for e in accepted:
+    # stamps: "each packet is stamped with its arrival time at this hop" -- the refused ones too
+    for e in posts:
         p = net.pk.objs[e[5]]
         stats["stamps_checked"] += 1
         if p.perhop_time.get(case["element_id"], "missing") != ins[e[5]][2]:
-            bad("perhop-stamp-missing-or-wrong", "an accepted packet is not stamped with its arrival time under the port's element id",
-                {"element_id": repr(case["element_id"]), "stamp": repr(p.perhop_time), "arrival": ins[e[5]][2]})
+            bad("perhop-stamp-missing-or-wrong", "a packet is not stamped with its arrival time under the port's element id",
+                {"element_id": repr(case["element_id"]), "stamp": repr(p.perhop_time), "arrival": ins[e[5]][2], "refused": bool(e[6])})
             break
     # drop decisions in action order
     out_seq = {o[5]: o[0] for o in outs}
@@ -583,7 +654,10 @@ def run_red(case, stats):
 def one_case(ctx, case):
     import collections
     stats = collections.Counter({k: 0 for k in KEYS})
-    if case["kind"] == "reentry":
+    if case["kind"] == "terminal":
+        viol = run_terminal(case, stats)
+        nt = stats["drop_decisions_checked"] >= 4
+    elif case["kind"] == "reentry":
         viol = run_reentry(case, stats)
         nt = stats["reentries"] >= 2
     elif case["kind"] == "port":
